@@ -69,7 +69,10 @@ the generator asks for it, so the kernels of gen_kernels.py are translated exact
                 they are read as `p[<int literal>]` and may be reassigned under `if` (merged component-wise).
   * return      nested tuple displays, tuple locals and a declared constructor call (`Window(a, b, c, d)`) are
                 flattened into one Lean tuple; the shape (`((_, _), (_, _))`, `Window(_, _, _, _)`) is recorded in the
-                kernel and must be the same on every return.
+                kernel and must be the same on every return.  A constructor is declared with what it validates itself
+                (rasterio's `Window`: width and height must not be negative, else ValueError — read in the library's
+                source, cross-checked against the real function on every run): that test is part of the translation and
+                raises `"Window: ValueError"`, told apart from a `raise ValueError` of the function itself.
   * expressions `ceil(e)` / `floor(e)` (names bound by `from math import …`, checked by the generator) and `int(e)`
                 on an `int` (identity) or a not-NaN float (`Rat.ceil` / `Rat.floor` / truncation towards zero; the
                 result is an `int`, as in Python 3); refused on a float that may be NaN (it would raise).
@@ -260,6 +263,7 @@ class Translator:
         self.math_names = dict(math_names or {})
         self.tuple_locals: Dict[str, int] = {}
         self.raises = False
+        self.ctor_checks: List[Tuple[Ex, str]] = []
         self.ret_shapes: List[str] = []
         self.fn = fn
         self.lean_name = lean_name
@@ -434,12 +438,19 @@ class Translator:
                     raise Unsupported(f"{self.fn.name}: the tuple local `{node.id}` is returned before it is assigned")
             return [self.var(env[k]) for k in keys], "(" + ", ".join("_" for _ in keys) + ")"
         if isinstance(node, ast.Call) and isinstance(node.func, ast.Name) and node.func.id in self.constructors:
-            if node.keywords or any(isinstance(a, ast.Starred) for a in node.args) \
-                    or len(node.args) != self.constructors[node.func.id]:
-                raise Unsupported(f"{self.fn.name}: `{src(node)}`: the constructor takes {self.constructors[node.func.id]} "
-                                  f"positional arguments")
-            return ([self.expr(a, env, facts) for a in node.args],
-                    node.func.id + "(" + ", ".join("_" for _ in node.args) + ")")
+            spec = self.constructors[node.func.id]
+            arity, nonneg, exc = spec if isinstance(spec, tuple) else (spec, (), None)
+            if node.keywords or any(isinstance(a, ast.Starred) for a in node.args) or len(node.args) != arity:
+                raise Unsupported(f"{self.fn.name}: `{src(node)}`: the constructor takes {arity} positional arguments")
+            args = [self.expr(a, env, facts) for a in node.args]
+            # what the constructor itself checks (declared by the generator from the library's source): the listed
+            # arguments must not be negative, or it raises `exc` — recorded as "<constructor>: <exception>"
+            for i in nonneg:
+                if args[i].ty not in NUMERIC:
+                    raise Unsupported(f"{self.fn.name}: `{src(node)}`: argument {i} is a {args[i].ty}")
+                zero = cast(Ex("lit", INT, (), Fraction(0)), args[i].ty)
+                self.ctor_checks.append((self.mk_cmp("lt", args[i], zero), f"{node.func.id}: {exc}"))
+            return args, node.func.id + "(" + ", ".join("_" for _ in node.args) + ")"
         return [self.expr(node, env, facts)], "_"
 
     def raise_name(self, st: ast.Raise) -> str:
@@ -547,6 +558,7 @@ class Translator:
             if st.value is None:
                 raise Unsupported(f"{self.fn.name}: `return` without a value")
             mark = len(self.pending)
+            self.ctor_checks = []
             vals, shape = self.return_values(st.value, env, facts)
             self.ret_shapes.append(shape)
             for v in vals:
@@ -554,7 +566,11 @@ class Translator:
                     raise Unsupported(f"{self.fn.name}: a {v.ty} is returned")
             r = Ret(vals)
             self.rets.append(r)
-            return self.wrap_pending(r, mark)
+            tree = r
+            for cond, exc in reversed(self.ctor_checks):  # the constructor's own validation, first argument first
+                self.raises = True
+                tree = If(cond, Raise(exc), tree)
+            return self.wrap_pending(tree, mark)
         if isinstance(st, ast.If):
             return self.if_stmt(st, rest, env, facts, cont, merge_names)
         if isinstance(st, ast.Raise) and self.exceptions:
